@@ -111,18 +111,18 @@ theorem profiler_hits_exact (ops : List Op) (lines : List Int) (threads : List N
 theorem untraced_inert (s : Prof.St) (e : Ev) (h : s.tracing e.t = false) : s.step (.ev e) = s := by
   simp [Prof.St.step, Prof.St.event, h]
 
-/-- **C01 as `get_stats` reports it.**  For every history from a fresh profiler in which functions come into existence with
-    compiler-produced bytecode: the hits reported for line `l` under a label are — once nothing is pending at `l` and no `disable()`
+/-- **C01 as `get_stats` reports it.**  For every history from a fresh profiler — whatever bytecode the functions arrive with (compiler-produced,
+    or padded by an earlier profiler of the same process: no hypothesis since the repair of F-C04c): the hits reported for line `l` under a label are — once nothing is pending at `l` and no `disable()`
     interrupted a line — exactly the LINE events delivered for line `l` of the bytecodes registered under that label, summed over
     those code objects (a function registered twice has two of them).  Nothing of another bytecode is counted, nothing is lost in a
     bucket `get_stats` does not read. -/
-theorem reported_hits_exact (ops : List Op) (hraw : ∀ op ∈ ops, DeclRaw op) (lab : Nat) (l : Int) (threads : List Nat)
+theorem reported_hits_exact (ops : List Op) (lab : Nat) (l : Int) (threads : List Nat)
     (hth : ∀ op ∈ ops, ∀ t, op.thread = some t → t ∈ threads) (htn : threads.Nodup)
     (hq : ∀ p ∈ (Prof.St.init.run ops).chm, pend (Prof.St.init.run ops).core.abs threads p.1.blk l = 0)
     (hd : ∀ p ∈ (Prof.St.init.run ops).chm, dropped Prof.St.init ops p.1.blk l = 0) :
     reportedHits (Prof.St.init.run ops) lab l
       = (((Prof.St.init.run ops).chm.filter (fun p => p.1.label = lab)).map fun p => delivered Prof.St.init ops p.1.blk l).sum := by
-  have hown := (run_own ops Prof.St.init hraw init_own).ownV
+  have hown := (run_own ops Prof.St.init init_own).ownV
   unfold reportedHits
   have hfull := sumHits_full (Prof.St.init.run ops).view hown
     ((Prof.St.init.run ops).chm.filter (fun p => p.1.label = lab)) (fun p hp => (List.mem_filter.mp hp).1) l
